@@ -78,6 +78,7 @@ let table : (str * (z list -> z)) list = [
   ("clisub", judge_clisub);
   ("clictu", judge_clictu);
   ("leaf", judge_leaf);
+  ("reprt", judge_reprt);
   ("cliverdict", judge_cliverdict);
 ]
 
